@@ -630,6 +630,27 @@ fn random_arg(set: &str, name: &str, field: &str, rng: &mut StdRng, valid: bool)
     }
 }
 
+/// An admissible argument near the low / high end of the setter's domain: the extreme (by the sum of all numbers
+/// in its JSON form) of 12 admissible draws.
+fn extreme_arg(set: &str, name: &str, field: &str, rng: &mut StdRng, high: bool) -> Value {
+    fn weight(v: &Value) -> i64 {
+        match v {
+            Value::Number(n) => n.as_i64().unwrap_or(0),
+            Value::Array(a) => a.iter().map(weight).sum(),
+            Value::Object(o) => o.values().map(weight).sum(),
+            _ => 0,
+        }
+    }
+    let mut best = random_arg(set, name, field, rng, true);
+    for _ in 0..11 {
+        let c = random_arg(set, name, field, rng, true);
+        if (high && weight(&c) > weight(&best)) || (!high && weight(&c) < weight(&best)) {
+            best = c;
+        }
+    }
+    best
+}
+
 /// Each setter of the creator once (DESIGN 7.9), in random order; Push/ReqGroup are additive and may repeat
 /// with distinct groups.
 fn random_setters(set: &str, name: &str, fields: &[&str], rng: &mut StdRng, valid: bool) -> Vec<(String, Value)> {
@@ -906,13 +927,26 @@ pub fn cmds_fields(a: &Args) {
             };
             let others: Vec<&str> = fields.iter().copied().filter(|g| g != f && *g != "Push").collect();
             for arg in args {
+                // (1) the other setters before and after it in random order with arbitrary arguments
                 let mut pre = random_setters(set, name, &others, &mut rng, false);
                 let cut = rng.gen_range(0..=pre.len());
                 let post = pre.split_off(cut);
-                pre.push((f.to_string(), arg));
+                pre.push((f.to_string(), arg.clone()));
                 pre.extend(post);
                 out.emit(&ev_build(set, name, &pre));
-                n_build += 1;
+                // (2) alone on the default creator: every neighbouring bit is in its default state
+                out.emit(&ev_build(set, name, &[(f.to_string(), arg.clone())]));
+                n_build += 2;
+                // (3), (4) after every other setter was given a (near-)minimal / (near-)maximal admissible argument:
+                // a value that spills over sets a cleared neighbour bit or clears a set one
+                if !others.is_empty() {
+                    for high in [false, true] {
+                        let mut v: Vec<(String, Value)> = others.iter().map(|g| (g.to_string(), extreme_arg(set, name, g, &mut rng, high))).collect();
+                        v.push((f.to_string(), arg.clone()));
+                        out.emit(&ev_build(set, name, &v));
+                        n_build += 1;
+                    }
+                }
             }
         }
         if *name == "McGroupStatusAns" {
